@@ -68,10 +68,10 @@ func c02Gen(rt *rapid.T) wProg {
 		}
 		return gPick(rt, pool, "topic")
 	}
-	n := rapid.IntRange(3, 14).Draw(rt, "nops")
+	n := gInt(rt, 3, 14, "nops")
 	for i := 0; i < n; i++ {
-		s := rapid.IntRange(0, len(p.Sess)-1).Draw(rt, "s")
-		switch x := rapid.IntRange(0, 99).Draw(rt, "opk"); {
+		s := gInt(rt, 0, len(p.Sess)-1, "s")
+		switch x := gInt(rt, 0, 99, "opk"); {
 		case x < 40:
 			op := wOp{K: "pub", S: s, T: topicFor(s), F: gPct(rt, 20)}
 			if gPct(rt, 30) {
@@ -107,20 +107,20 @@ func c02Gen(rt *rapid.T) wProg {
 				actor = 0
 			}
 			p.Ops = append(p.Ops, wOp{K: "set", S: actor, T: gPick(rt, []string{"g0", "g0", "g0", "p1"}, "t"), A: "given",
-				U: rapid.IntRange(1, 3).Draw(rt, "target"), B: gPick(rt, gGivenModes, "given")})
+				U: gInt(rt, 1, 3, "target"), B: gPick(rt, gGivenModes, "given")})
 		case x < 83:
 			actor := s
 			if gPct(rt, 75) {
 				actor = 0
 			}
-			p.Ops = append(p.Ops, wOp{K: "del", S: actor, T: "g0", A: "sub", U: rapid.IntRange(1, 3).Draw(rt, "target")})
+			p.Ops = append(p.Ops, wOp{K: "del", S: actor, T: "g0", A: "sub", U: gInt(rt, 1, 3, "target")})
 		case x < 88:
 			p.Ops = append(p.Ops, wOp{K: "reload", T: gPick(rt, []string{"g0", "g0", "p1"}, "rt")})
 		case x < 91:
 			p.Ops = append(p.Ops, wOp{K: "disc", S: s}, wOp{K: "reconn", S: s})
 		case x < 94:
 			if p.Cfg.Root {
-				p.Ops = append(p.Ops, wOp{K: "acc", S: 0, U: rapid.IntRange(0, 2).Draw(rt, "target"), A: gPick(rt, []string{"susp", "susp", "ok"}, "state")})
+				p.Ops = append(p.Ops, wOp{K: "acc", S: 0, U: gInt(rt, 0, 2, "target"), A: gPick(rt, []string{"susp", "susp", "ok"}, "state")})
 			}
 		case x < 97:
 			p.Ops = append(p.Ops, wOp{K: "tick", N: gPick(rt, []int{50, 1000, 5500}, "ms")})
